@@ -297,6 +297,63 @@ def main():
         if not re.search(pat, sb2):
             raise Unsupported("sort(list): %s not found" % what)
 
+
+    # --- 4. ICU bridge: the collator cache model (lean/XalanModel/C16/Sort.lean `collate`) mirrors these
+    icu = os.path.join(common.REPO, "src", "xalanc", "ICUBridge", "ICUBridgeCollationCompareFunctorImpl.cpp")
+    isrc = strip_comments(open(icu, encoding="utf-8", errors="replace").read())
+    ib, _ = function_body(isrc, r"ICUBridgeCollationCompareFunctorImpl::doCompare\(\s*CollatorType&")
+    ist = [x for x in parse_stmts(ib) if not (x[0] == "simple" and x[1].startswith("assert"))]
+    if not (len(ist) >= 2 and ist[0][0] == "simple" and nospace(ist[0][1]) == "UErrorCodetheStatus=U_ZERO_ERROR"
+            and ist[1][0] == "simple"
+            and nospace(ist[1][1]) == "theCollator.setAttribute(UCOL_CASE_FIRST,caseOrderConvert(theCaseOrder),theStatus)"):
+        raise Unsupported("ICU bridge: doCompare(CollatorType&, …, caseOrder) no longer sets UCOL_CASE_FIRST unconditionally "
+                          "from its own case-order before comparing")
+    for co, attr in (("eLowerFirst", "UCOL_LOWER_FIRST"), ("eUpperFirst", "UCOL_UPPER_FIRST")):
+        if not re.search(r"case\s+XalanCollationServices::%s\s*:\s*return\s+%s\s*;" % (co, attr), isrc):
+            raise Unsupported("ICU bridge: caseOrderConvert(%s) is no longer %s" % (co, attr))
+    cb, _ = function_body(isrc, r"inline\s+UColAttributeValue\s+caseOrderConvert\(")
+    if not re.search(r"return\s+UCOL_DEFAULT\s*;\s*$", cb.strip()):
+        raise Unsupported("ICU bridge: caseOrderConvert(eDefault) is no longer UCOL_DEFAULT")
+    ops = [m.start() for m in re.finditer(r"ICUBridgeCollationCompareFunctorImpl::operator\(\)\(", isrc)]
+    if len(ops) != 2:
+        raise Unsupported("ICU bridge: expected two operator() overloads")
+    b3 = isrc[isrc.index("{", ops[0]):]
+    b3 = b3[1:match_brace(b3, 0)]
+    b4 = isrc[isrc.index("{", ops[1]):]
+    b4 = b4[1:match_brace(b4, 0)]
+    s3 = parse_stmts(b3)
+    ok3 = (len(s3) == 1 and s3[0][0] == "if" and nospace(s3[0][1]) == "theCaseOrder==XalanCollationServices::eDefault"
+           and "doDefaultCompare(theLHS,theRHS)" in nospace(str(s3[0][2]))
+           and "doCompare(theLHS,theRHS,m_defaultCollatorLocaleName.c_str(),theCaseOrder)" in nospace(str(s3[0][3])))
+    if not ok3:
+        raise Unsupported("ICU bridge: operator()(lhs, rhs, caseOrder) dispatch changed")
+    s4 = [x for x in parse_stmts(b4) if x[0] == "if"]
+    ok4 = (len(s4) == 1
+           and nospace(s4[0][1]) == "theCaseOrder==XalanCollationServices::eDefault&&XalanDOMString::equals(m_defaultCollatorLocaleName,theLocale)==true"
+           and "doDefaultCompare(theLHS,theRHS)" in nospace(str(s4[0][2]))
+           and s4[0][3] is not None and s4[0][3][0] == "if" and nospace(s4[0][3][1]) == "m_cacheCollators==true"
+           and "doCompareCached(theLHS,theRHS,theLocale,theCaseOrder)" in nospace(str(s4[0][3][2]))
+           and "doCompare(theLHS,theRHS,theLocale,theCaseOrder)" in nospace(str(s4[0][3][3])))
+    if not ok4:
+        raise Unsupported("ICU bridge: operator()(lhs, rhs, locale, caseOrder) dispatch changed")
+    cc, _ = function_body(isrc, r"ICUBridgeCollationCompareFunctorImpl::doCompareCached\(")
+    if not re.search(r"getCachedCollator\(theLocale\)", cc) or len(re.findall(r"doCompare\(\s*\*theCollator\s*,\s*theLHS\s*,\s*theRHS\s*,\s*theCaseOrder\s*\)", cc)) != 2 \
+            or not re.search(r"cacheCollator\(\s*theCollatorGuard\.get\(\)\s*,\s*theLocale\s*\)", cc):
+        raise Unsupported("ICU bridge: doCompareCached changed")
+    # NodeSorter.cpp doCollationCompare: empty language -> 3-argument form
+    dcb, _ = function_body(src, r"doCollationCompare\(")
+    if nospace(parse_stmts(dcb)[0][1]) != "theLanguage.empty()==true":
+        raise Unsupported("doCollationCompare: `theLanguage.empty() == true` dispatch changed")
+    # each key owns its language (after the fix of the shared langString)
+    nsk = strip_comments(open(os.path.join(common.REPO, "src", "xalanc", "XSLT", "NodeSortKey.hpp"), encoding="utf-8", errors="replace").read())
+    facts["lang_per_key"] = bool(re.search(r"XalanDOMString\s+m_languageString\s*;", nsk))
+    if not facts["lang_per_key"]:
+        raise Unsupported("NodeSortKey no longer owns a copy of its language string (model: keyLangs)")
+    efe = strip_comments(open(os.path.join(common.REPO, "src", "xalanc", "XSLT", "ElemForEach.cpp"), encoding="utf-8", errors="replace").read())
+    scb, _ = function_body(efe, r"ElemForEach::sortChildren\(")
+    if not re.search(r"getLangAVT\(\)\s*;\s*langString\.clear\(\)\s*;\s*if\s*\(\s*0\s*!=\s*avt\s*\)\s*\{\s*avt->evaluate\(\s*langString", scb):
+        raise Unsupported("sortChildren no longer clears the language scratch string for each xsl:sort before evaluating its lang AVT")
+
     lean = """/- GENERATED by translate/c16_nodesorter.py from src/xalanc/XSLT/NodeSorter.cpp — do not edit.
    sentinel literal: %s   compare() at line %d -/
 import XalanModel.C16.Dbl
